@@ -649,6 +649,7 @@ func (q *TransferQueue) enqueueAndCollectRetriesFor(batch batch) (batch, error) 
 				delete(unanswered, t.Oid)
 				q.errorc <- errors.New(tr.Tr.Get("[%v] The server did not return this object in its response.", t.Oid))
 				q.Skip(t.Size)
+				verifEv("obj.unanswered", t.Oid, 0)
 				q.wait.Done()
 			}
 		}
@@ -688,6 +689,7 @@ func (q *TransferQueue) enqueueAndCollectRetriesFor(batch batch) (batch, error) 
 			q.trMutex.Lock()
 			_, known := q.transfers[o.Oid]
 			q.trMutex.Unlock()
+			verifEv("obj.unknown.ignored", o.Oid, 0)
 			if known {
 				tracerx.Printf("tq: ignoring repeated object %q in batch response", o.Oid)
 			} else {
